@@ -385,7 +385,7 @@ def _boxes(rs):
 
 @contract(P, kind="enum", functions=[D + "split_refinable_regions", D + "initial_grid", D + "floorplanning_rectangles", G + "split_rectangles",
                                      G + "Rectangle.rectangle_grid"],
-          scope="bounded: concrete dies (decimal sizes, up to 4 blockages / specialised regions, fixed modules), limits 1.42 .. 4, counts up to 60, "
+          scope="bounded: concrete dies (decimal sizes from 0.002 to 2000 units, up to 4 blockages / specialised regions, fixed modules), limits 1.42 .. 4, counts up to 60 (sometimes 256 / 400), "
                 "grids up to 9 x 9, repeated refinement", params=[dict(chunk=i) for i in range(8)])
 def larger_dies(chunk, replay=None):
     import os
@@ -433,7 +433,7 @@ def larger_dies(chunk, replay=None):
         if replay:
             spec, net, ops = replay["die"], replay["netlist"], replay["ops"]
         else:
-            W, H = rng.choice([(10, 8), (12.5, 7.3), (30, 4), (3, 17), (0.9, 0.6), (100, 100)])
+            W, H = rng.choice([(10, 8), (12.5, 7.3), (30, 4), (3, 17), (0.9, 0.6), (100, 100), (0.002, 0.001), (0.004, 0.003), (2000.0, 1500.0)])
             step = min(W, H) / 10
             regions, taken = [], []
             for tag in rng.sample(["#", "DSP", "BRAM", "#", "LUT"], rng.randint(0, 4)):
@@ -461,6 +461,8 @@ def larger_dies(chunk, replay=None):
                 ops = [("grid", rng.randint(1, 9), rng.randint(1, 9))] + [("split", rng.choice([1.42, 1.5, 2.0]), rng.randint(1, 60))]
             else:
                 ops = [("split", rng.choice([1.42, 1.5, 1.9, 2.0, 3.0, 4.0]), rng.choice([1, 1, 2, 5, 17, 40, 60])) for _ in range(rng.randint(1, 3))]
+                if rng.random() < 0.15:      # a large count (the count must be reached whatever the units of the die; added after seed C11-5)
+                    ops = [("split", 2.0, rng.choice([256, 400]))]
         Rectangle.undefine_epsilon()
         try:
             d = Die(write_yaml(spec), Netlist(write_yaml(net)) if net else None)
